@@ -717,7 +717,20 @@ pub fn run(ctx: &Ctx) -> i32 {
         let text = std::fs::read_to_string(path).expect("replay file");
         let v: serde_json::Value = serde_json::from_str(&text).expect("json");
         let case = &v["case"];
-        let name = case["decoder"].as_str().unwrap();
+        if case["kind"] == "calendar-number" {
+            use zvt_builder::encoding::{Default as Dflt, Encoding};
+            use zvt_builder::ZvtSerializer;
+            let container = refcodec::unhex(case["container"].as_str().unwrap_or("")).unwrap_or_default();
+            let packet = refcodec::unhex(case["packet"].as_str().unwrap_or("")).unwrap_or_default();
+            println!("replay C02: date entry {} time entry {}", case["date_written"], case["time_written"]);
+            println!("  Default<NaiveDateTime>.decode({}) = {:?}", hex(&container), guarded(|| <Dflt as Encoding<chrono::NaiveDateTime>>::decode(&container).map(|(v, r)| (v, r.len())).map_err(|e| format!("{e:?}"))));
+            println!("  ReceiptPrintoutCompletion({}) = {:?}", hex(&packet), guarded(|| zvt::packets::ReceiptPrintoutCompletion::zvt_deserialize(&packet).map(|(v, r)| (format!("{v:?}"), r.len())).map_err(|e| format!("{e:?}"))));
+            return 0;
+        }
+        let Some(name) = case["decoder"].as_str() else {
+            println!("replay C02: this case is not a decoder input; it is described by its fields: {case}");
+            return 0;
+        };
         let d = (0..n_decoders()).find(|d| decoder_name(*d) == name).unwrap();
         let bytes = refcodec::unhex(case["bytes"].as_str().unwrap()).unwrap();
         alloc_window_start();
